@@ -425,3 +425,50 @@ Proof.
   replace (cap_of n128 - (length ents + 1))%nat with (cap_of n128 - S (length ents))%nat by lia.
   destruct (length (moc_data (e_moc smoc e))); reflexivity.
 Qed.
+
+(** ---------- a status change: one metadata word, nothing else moves ---------- *)
+Lemma data_part_set_status st l1 e l2 : data_part (l1 ++ set_status st e :: l2) = data_part (l1 ++ e :: l2).
+Proof. unfold data_part. rewrite !flat_map_app. reflexivity. Qed.
+
+Lemma index_words_set_status n128 st l1 e l2 : index_words n128 (l1 ++ set_status st e :: l2) = index_words n128 (l1 ++ e :: l2).
+Proof. unfold index_words. rewrite !map_app. reflexivity. Qed.
+
+Theorem chg_store_layout n128 st (l1 : list sentry) e l2 tailw junk :
+  chg_store (length l1) st (l1 ++ e :: l2) (layout_gen n128 (l1 ++ e :: l2) tailw junk)
+  = layout_gen n128 (l1 ++ set_status st e :: l2) tailw junk.
+Proof.
+  unfold chg_store, layout_gen.
+  rewrite app_nth2 by lia. rewrite Nat.sub_diag. cbn [nth].
+  rewrite index_words_set_status, data_part_set_status.
+  set (A := le_bytes 8 n128).
+  rewrite (write_at_prefix A 8 (8 * length l1)) by apply le_bytes_length. f_equal.
+  assert (EM : forall x, meta_part n128 (l1 ++ x :: l2)
+                = flat_map (le_bytes 8) (map raw_meta l1 ++ raw_meta x :: (map raw_meta l2 ++ repeat 0 (cap_of n128 - length (l1 ++ x :: l2))))).
+  { intros x. unfold meta_part. rewrite (zeros_words (cap_of n128 - length (l1 ++ x :: l2))).
+    rewrite !flat_map_app. cbn [flat_map]. rewrite !flat_map_app, <- !app_assoc. f_equal; [|f_equal; f_equal].
+    - clear. induction l1 as [|y t IH]; [reflexivity|]. cbn [flat_map map]. rewrite IH. reflexivity.
+    - clear. induction l2 as [|y t IH]; [reflexivity|]. cbn [flat_map map]. rewrite IH. reflexivity. }
+  rewrite (EM e), (EM (set_status st e)).
+  assert (L : length (l1 ++ set_status st e :: l2) = length (l1 ++ e :: l2)) by (rewrite !app_length; reflexivity).
+  rewrite L.
+  replace (8 * length l1)%nat with (8 * length (map raw_meta l1))%nat by (rewrite map_length; reflexivity).
+  apply write_at_word.
+Qed.
+
+Corollary chg_store_decode n128 st (l1 : list sentry) e l2 :
+  1 <= n128 -> (length (l1 ++ e :: l2) <= cap_of n128)%nat -> Forall entry_ok (l1 ++ e :: l2) ->
+  hdr_size n128 + N.of_nat (length (data_part (l1 ++ e :: l2))) < 2 ^ 64 ->
+  decode_file (chg_store (length l1) st (l1 ++ e :: l2) (file_bytes n128 (l1 ++ e :: l2)))
+  = (n128, l1 ++ set_status st e :: l2).
+Proof.
+  intros Hn Hlen Hok Hsz. rewrite file_bytes_gen, chg_store_layout.
+  assert (L : length (l1 ++ set_status st e :: l2) = length (l1 ++ e :: l2)) by (rewrite !app_length; reflexivity).
+  apply decode_layout_gen; try assumption.
+  - rewrite L. exact Hlen.
+  - apply Forall_app. apply Forall_app in Hok. destruct Hok as [H1 H2]. split; [exact H1|].
+    inversion H2 as [|? ? He Ht]; subst. constructor; [|exact Ht].
+    destruct He as [A [B C]]. repeat split; assumption.
+  - rewrite data_part_set_status. exact Hsz.
+  - rewrite repeat_length, L. reflexivity.
+  - apply Forall_forall. intros x Hx. apply repeat_spec in Hx. subst x. reflexivity.
+Qed.
